@@ -58,7 +58,17 @@ def prog_use_definitions(nl, nr, holes, form="member"):
     function pointer), "reference" (constexpr function reference)"""
     ls = ", ".join("L<%d>" % i for i in range(nl))
     rs = ", ".join("R<%d>" % i for i in range(nr))
-    hole_specs = "\n".join("template<> struct definition<M, L<%d>, R<%d>> : not_defined {};" % h for h in holes)
+    # how a combination is marked not_defined: directly; directly, but still providing fn; through an intermediate
+    # base; through two bases at once (not_defined is then an ambiguous base); through a private base
+    hole_forms = [
+        "template<> struct definition<M, L<%(l)d>, R<%(r)d>> : not_defined {};",
+        "template<> struct definition<M, L<%(l)d>, R<%(r)d>> : not_defined { static int fn(L<%(l)d>&, R<%(r)d>&) { return -1; } };",
+        "template<> struct definition<M, L<%(l)d>, R<%(r)d>> : off_left { static int fn(L<%(l)d>&, R<%(r)d>&) { return -1; } };",
+        "template<> struct definition<M, L<%(l)d>, R<%(r)d>> : off_left, off_right { static int fn(L<%(l)d>&, R<%(r)d>&) { return -1; } };",
+        "template<> struct definition<M, L<%(l)d>, R<%(r)d>> : private not_defined { static int fn(L<%(l)d>&, R<%(r)d>&) { return -1; } };",
+    ]
+    hole_specs = "struct off_left : not_defined {};\nstruct off_right : not_defined {};\n" + \
+        "\n".join(hole_forms[k % len(hole_forms)] % {"l": h[0], "r": h[1]} for k, h in enumerate(holes))
     fn_decl = {"member": "static int fn(A& a, B& b) { return impl_fn<A, B>(a, b); }",
                "pointer": "static constexpr auto fn = &impl_fn<A, B>;",
                "reference": "static constexpr int (&fn)(A&, B&) = impl_fn<A, B>;"}[form]
